@@ -79,7 +79,12 @@ pub fn config_of(scn: &Value, dir: &std::path::Path) -> (Value, Value) {
     let access = if scn["acc"].as_str().unwrap_or("none") == "turn" {
         let mut txt = String::from("arrival_heading,departure_heading\n");
         for h in scn["hd"].as_array().unwrap() {
-            txt.push_str(&format!("{},{}\n", ji(&h[0]), ji(&h[1])));
+            // the second heading is optional: a straight edge may leave it out
+            if ji(&h[0]) == ji(&h[1]) && scn["omit_zero"].as_bool().unwrap_or(false) {
+                txt.push_str(&format!("{},\n", ji(&h[0])));
+            } else {
+                txt.push_str(&format!("{},{}\n", ji(&h[0]), ji(&h[1])));
+            }
         }
         std::fs::write(p("headings.csv"), txt).unwrap();
         let dtu = tunit(nu["delay"].as_str().unwrap());
@@ -88,8 +93,23 @@ pub fn config_of(scn: &Value, dir: &std::path::Path) -> (Value, Value) {
         for (i, d) in scn["delay"].as_array().unwrap().iter().enumerate() {
             table.insert(names[i].to_string(), json!(TimeUnit::Seconds.convert(&Time::new(jf(d)), &dtu).as_f64()));
         }
-        json!({"type": "turn_delay", "edge_heading_input_file": p("headings.csv"),
-               "turn_delay_model": {"type": "tabular_discrete", "table": table, "time_unit": nu["delay"]}})
+        let one = json!({"type": "turn_delay", "edge_heading_input_file": p("headings.csv"),
+               "turn_delay_model": {"type": "tabular_discrete", "table": table, "time_unit": nu["delay"]}});
+        if scn["split_models"].as_bool().unwrap_or(false) {
+            let (mut ta, mut tb) = (serde_json::Map::new(), serde_json::Map::new());
+            for (k, v) in one["turn_delay_model"]["table"].as_object().unwrap() {
+                let d = v.as_f64().unwrap();
+                let a = (d / 2.0).floor();
+                ta.insert(k.clone(), json!(a));
+                tb.insert(k.clone(), json!(d - a));
+            }
+            let (mut ma, mut mb) = (one.clone(), one.clone());
+            ma["turn_delay_model"]["table"] = Value::Object(ta);
+            mb["turn_delay_model"]["table"] = Value::Object(tb);
+            json!({"type": "combined", "access_models": [ma, mb]})
+        } else {
+            one
+        }
     } else {
         json!({"type": "no_access_model"})
     };
